@@ -563,11 +563,11 @@ Qed.
 Theorem dispatch_acts_on_unpacked kernel op p u :
   packed_unpack kernel (p_data p) (p_bits p) (p_size p) = Ok u ->
   match op with
-  | Detach | ToCopy true => (r <- p_dispatch kernel op p ;; pres_value kernel r) = Ok u
+  | Detach | Clone | ToCopy true => (r <- p_dispatch kernel op p ;; pres_value kernel r) = Ok u
   | ToCopy false => p_dispatch kernel op p = Err "ValueError"%string
   | Other f => (r <- p_dispatch kernel op p ;; pres_value kernel r) = f u
   end.
 Proof.
-  intros H. destruct op as [|[|]|f]; cbn [p_dispatch bind pres_value]; try assumption; try reflexivity.
+  intros H. destruct op as [| |[|]|f]; cbn [p_dispatch bind pres_value]; try assumption; try reflexivity.
   rewrite H. cbn [bind]. destruct (f u); reflexivity.
 Qed.
